@@ -28,6 +28,9 @@ func (m *Machine) blobLen(b *Blob) *Term {
 	if b.kind == "atombytes" {
 		return m.strLen(b.str)
 	}
+	if b.kind == "sig" {
+		return mkInt(65)
+	}
 	return mkInt(int64(len(describe(b.v)) + 2)) // positive, content-independent decisions only
 }
 
@@ -63,6 +66,9 @@ func (m *Machine) blobSliceOp(s SliceVal, b *Blob, lo, hi *Term) Value {
 	}
 	if lo == nil && hi == nil {
 		return s
+	}
+	if b.kind == "sig" {
+		return s // R||S||V: the 64-byte prefix identifies the same signature in the model
 	}
 	panic(abortf("slicing an opaque %s blob", b.kind))
 }
@@ -260,6 +266,19 @@ func (m *Machine) snapWalk(v Value, sb *strings.Builder, sn *SnapVal, seen map[*
 		sb.WriteString("opaque:" + x.tag)
 	case *kvDB:
 		x.snap(m, sb, sn, seen, depth)
+	case *Blob:
+		sb.WriteString("blob:" + x.kind + ":" + x.raw + ":")
+		if x.kind == "atombytes" {
+			m.snapWalk(x.str, sb, sn, seen, depth+1)
+		} else {
+			m.snapWalk(x.v, sb, sn, seen, depth+1)
+		}
+	case *SnapVal:
+		// a snapshot nested in a value (hash of a hashed input): splice its skeleton and leaves
+		sb.WriteString("snap(")
+		sb.WriteString(x.s)
+		sb.WriteString(")")
+		sn.terms = append(sn.terms, x.terms...)
 	default:
 		fmt.Fprintf(sb, "<%T>", v)
 	}
@@ -273,6 +292,7 @@ func (m *Machine) snapSame(a, b Value) Value {
 	}
 	if x.s != y.s || len(x.terms) != len(y.terms) {
 		m.lastSnapDiff = firstDiff(x.s, y.s)
+		dbg("snapshot mismatch: %s", m.lastSnapDiff)
 		return tFalse
 	}
 	var cs []*Term
